@@ -680,6 +680,9 @@ class CellsImpl(*_cells_impl_base):
 
     def on_namespace_change(self):
         self.clear_all_values(clear_input=False)
+        if not self.is_cached:
+            # Callers of uncached cells depend on the object node
+            self.model.clear_with_descs((self,))
 
     # ----------------------------------------------------------------------
     # repr methods
